@@ -444,6 +444,9 @@ def main(argv):
         for q, e in hard:
             print('CHECKER-ERROR %s: %s: %s' % (q, e[0], e[1]))
         return 3
+    # obligations downstream of a refuted proof step are not generated (the
+    # path ends there): that is a consequence of the refutation, not shrinkage
+    shrink = [x for x in shrink if x.split('/')[0] not in by_func]
     if shrink:
         print('CHECKER-ERROR: %d baseline obligations were not generated, e.g. %s' % (len(shrink), shrink[:5]))
         return 3
